@@ -412,6 +412,32 @@ def build_case(rng):
         else:
             data, _ = world.random_container(rng, cont, bad, 1600000000, "x")
         fname = name
+    elif kind == "text" and rng.random() < 0.12:
+        # a text log in which one stamp (or every stamp) carries a character that only looks like what belongs there: a typographic
+        # dash or minus for the zone's sign, a non-breaking or thin space, fullwidth digits -- input a word processor or a web
+        # form leaves behind. Such a line may or may not be taken for a message; it must not bring the program down
+        import re
+        look = ("\u2013", "\u2212", "\u2012", "\u2014", "\uff0d", "\u00ad", "\u00b1", "\uff0b")
+        txt = content
+        how = rng.choice(("sign", "sign", "space", "digit"))
+        if how == "sign":
+            rx = re.compile(rb"(?<=[ T\d])[-+](?=\d\d:?\d\d)")
+            rep = rng.choice(look).encode("utf-8")
+        elif how == "space":
+            rx = re.compile(rb"(?<=\d) (?=\d\d:\d\d)")
+            rep = rng.choice(("\u00a0", "\u2009", "\u3000")).encode("utf-8")
+        else:
+            rx = re.compile(rb"(?<=:)\d(?=\d[.\] ])")
+            rep = rng.choice(("\uff10", "\u0660", "\u00b2")).encode("utf-8")
+        bad = rx.sub(rep, txt, count=rng.choice((1, 1, 0)))
+        fdesc = {"fault": "look_alike_character_in_stamp", "how": how, "char": rep.hex(), "changed": bad != txt}
+        if cont == "tar":
+            data = world.to_tar([(valid_member_name(name, kind), bad, 1600000000)], rng.choice(("ustar", "gnu", "pax")))
+        elif cont == "plain":
+            data = bad
+        else:
+            data, _ = world.random_container(rng, cont, bad, 1600000000, "x")
+        fname = name
     else:
         fname, data, fdesc = inject(rng, name, stored, content, cont)
     fdesc.update({"base_kind": kind, "base_container": cont})
